@@ -520,7 +520,15 @@ impl<Sink: TokenSink> XmlTokenizer<Sink> {
         assert!(c.is_some());
     }
 
-    fn unconsume(&self, input: &BufferQueue, buf: StrTendril) {
+    fn unconsume(&self, input: &BufferQueue, mut buf: StrTendril) {
+        // The text handed back went through the input preprocessor. If it ends with the LF
+        // that a CR was turned into, hand the CR back: otherwise the pending `ignore_lf`
+        // would swallow this very line break when it is read again.
+        if self.ignore_lf.get() && buf.ends_with('\n') {
+            self.ignore_lf.set(false);
+            buf.pop_back(1);
+            buf.push_char('\r');
+        }
         input.push_front(buf);
     }
 }
